@@ -171,9 +171,10 @@ func vC11Status(tag string) string {
 	return api.HealthPassing
 }
 
-// one catalog write; returns a label for assertion ids
-func vC11Write(s *Store, tag string, idx uint64, withProxy bool) string {
-	switch verifrt.Choice(tag, 7) {
+// one catalog write; returns a label for assertion ids. A write the store refuses (e.g. a check for a node
+// that a previous step removed) is not part of the history. kinds limits the choice to the first kinds writes.
+func vC11Write(s *Store, tag string, idx uint64, withProxy bool, kinds int) string {
+	switch verifrt.Choice(tag, kinds) {
 	case 0: // re-registration of s1, possibly under the other name, possibly with a node change and a check status
 		name := vC11Names[verifrt.Choice(tag+".name", 2)]
 		req := &structs.RegisterRequest{Node: "n1", Address: "10.0.0.1",
